@@ -1,17 +1,20 @@
 #!/bin/bash
-# tools/ingest_seed.sh C07        - copy /tmp/wt-C07/_seed[2] into /verif/seeded/
+# tools/ingest_seed.sh C07 [worktree-prefix=wt] [first-index=1]
+#   copies /tmp/<prefix>-C07/_seed and _seed2 into /verif/seeded/
 cd "$(dirname "$0")/.." || exit 2
-p=$1
+p=$1; pre=${2:-wt}; base=${3:-1}
+i=$base
 for sfx in "" 2; do
-  src=/tmp/wt-$p/_seed$sfx
-  [ -f $src/patch.diff ] || continue
+  src=/tmp/$pre-$p/_seed$sfx
+  [ -f $src/patch.diff ] || { i=$((i+1)); continue; }
   n=$(python3 -c "
 import json,re,sys
 m=json.load(open('$src/meta.json'))
 s=re.sub(r'[^a-z0-9]+','-',m.get('summary','x').lower())[:40].strip('-')
 print(s)")
-  dst=seeded/$p-${sfx:-1}-$n
+  dst=seeded/$p-$i-$n
   mkdir -p $dst
   cp $src/patch.diff $src/demo.py $src/meta.json $dst/
   echo "ingested $dst"
+  i=$((i+1))
 done
